@@ -36,7 +36,7 @@ ASSUMPTIONS = ["x64; first use = 2-step fixed-grid solve, one loss evaluation or
 REQUIRED_LABELS = ["entry:output_scale", "entry:is_exact", "entry:tcoeffs", "entry:tcoeffs_std", "entry:loss_std", "entry:plain_function", "entry:lift",
                    "entry:exponential_order", "entry:error_shape", "entry:ensembles", "entry:warning", "entry:transition_scale", "valid_twin_ok",
                    "ctor:wiener", "ctor:wiener_diffuse", "ctor:exponential", "ctor:wiener+diffuse_derivatives", "pinned:sweep",
-                   "generic:valid_shape", "generic:invalid_shape"]
+                   "generic:valid_shape", "generic:invalid_shape", "pinned:shapes"]
 
 ENTRIES = {
     "output_scale": ["extra_axis", "wrong_length", "scalar_for_vector", "vector_for_scalar", "length_one", "tree_structure", "generic_shape"],
@@ -95,7 +95,40 @@ def pinned_cases(ctx):
             rank = (h >> 16) % 4
             case["shape"] = [sizes[(h >> (20 + 4 * k)) % len(sizes)] for k in range(rank)]
         out.append(("sweep", case))
+    # generic shapes: for every array-valued field x factorisation, every shape that silent broadcasting, raveling or reshaping could
+    # swallow (size one; the valid shape with unit axes inserted / an axis replaced by one / transposed / flattened / one axis off by one)
+    fields = {"output_scale": ("output_scale", "generic_shape"), "transition_scale": ("transition_scale", "generic_shape"),
+              "is_exact": ("is_exact", "generic_shape"), "tcoeffs_std": ("tcoeffs_std", "generic_shape"),
+              "loss_std": ("loss_std", "generic_shape"), "loss_std_terminal": ("loss_std", "generic_shape_terminal")}
+    i = 0
+    for field, (e, o) in sorted(fields.items()):
+        for f in gen.FACTS:
+            h = common.derive_seed(ctx.seed, field, f, "c20-shapes")
+            n, d = 2 + h % 3, 2 + (h >> 4) % 2
+            for shape in _swallowable_shapes(_valid_shapes(field, f, d)):
+                for v in (range(n) if (field in ("is_exact", "tcoeffs_std") and ctx.tier != "quick") else [(h >> 8) % n]):
+                    i += 1
+                    if i % ctx.nshards != ctx.shard:
+                        continue
+                    out.append(("shapes", dict(entry=e, op=o, fact=f, n=n, d=d, which=(h >> 12) % 4, variant=int(v), shape=list(shape))))
     return out
+
+
+def _swallowable_shapes(valid):
+    out = {(), (1,), (1, 1), (1, 1, 1)}
+    for v in valid:
+        dims = list(v)
+        for pos in range(len(dims) + 1):
+            out.add(tuple(dims[:pos] + [1] + dims[pos:]))
+        for k in range(len(dims)):
+            out.add(tuple(1 if j == k else x for j, x in enumerate(dims)))
+            out.add(tuple(x + 1 if j == k else x for j, x in enumerate(dims)))
+            out.add(tuple(x - 1 if j == k else x for j, x in enumerate(dims)) if dims[k] > 1 else tuple(dims))
+        out.add(tuple(reversed(dims)))
+        if dims:
+            out.add((int(np.prod(dims)),))
+        out.add(tuple(dims))
+    return sorted(out)
 
 
 # ------------------------------------------------------------------------------------
